@@ -18,9 +18,16 @@
   validator).  Rotations are the matrix `(cos, sin)` that `euclid::Rotation2D::transform_point`
   builds from `sin_cos(angle)`.
 
-  The two defects of the code are modelled as they are:
-  * `hatch` unwraps `events.edges.first()`: no edge → `none` (= panic);
-  * the `while y < …` loops have no progress guard other than `offset <= 0` (fuel in the model).
+  Mirrors the code after the two repairs
+  * 9b281594 `fix: Hatcher produces no output for a path without edges instead of panicking`
+    (`if events.edges.is_empty() { return; }` in front of `events.edges.first().unwrap()`), and
+  * 6b2eb1e7 `fix: HatchesToDots divides by the segment's u-extent instead of normalizing`
+    (`ab = (b.position - a) / (b.u - a.u)`).
+  Before them the model returned `none` (= panic) on an empty edge list and used
+  `normalize (pb - pa)`; the former witnesses are recorded in `Props/C20.lean`.
+
+  Still as in the code: the `while y < …` loops have no progress guard other than `offset <= 0`
+  (fuel in the model).
 -/
 import LyonVerif.Model.Geom.Basic
 
@@ -223,12 +230,21 @@ def initSt (b : σ) (y0 off0 : α) : St σ α :=
 def finish [Transc α] (cfg : Cfg α) (B : Builder σ α) (fuel : Nat) (st : St σ α) : St σ α :=
   if st.stop || st.fuelOut then st else rowsWhile cfg B fuel st.ymax st
 
-/-- `Hatcher::hatch`.  `none` = the `unwrap()` of `events.edges.first()` on an empty list. -/
+/-- the state `hatch` leaves behind when it returns at the `is_empty` guard: the builder has not
+been called -/
+def emptySt (b0 : σ) : St σ α :=
+  { b := b0, y := zero, ymax := zero, active := [], row := 0, rows := [], offs := [],
+    stop := false, fuelOut := false }
+
+/-- `Hatcher::hatch`: `if events.edges.is_empty() { return; }`, then
+`events.edges.first().unwrap()` — `none` would be the `unwrap()` of `None` (a panic); the guard
+makes it unreachable (`hatch_total`). -/
 def hatch [Transc α] (cfg : Cfg α) (B : Builder σ α) (fuel : Nat) (edges : List (Seg α)) (b0 : σ) :
     Option (St σ α) :=
-  match edges with
-  | [] => none
-  | e0 :: _ =>
+  if edges.isEmpty then some (emptySt b0) else
+  match edges.head? with
+  | none => none
+  | some e0 =>
     some (finish cfg B fuel
       (hatchEdges cfg B fuel edges
         (initSt (B.nextOff b0 0).2 (e0.a.y + (B.nextOff b0 0).1) (B.nextOff b0 0).1)))
@@ -305,7 +321,8 @@ def dotLoop (pat : DotPat α) (s : HSeg α) (ab : P α) : Nat → Nat → α →
 
 /-- the dots `HatchesToDots::add_segment` emits for one hatch segment, starting at `column` -/
 def dotsOfSeg [Transc α] (pat : DotPat α) (fuel : Nat) (s : HSeg α) (col : Nat) : List (Dot α) :=
-  dotLoop pat s (normalize (s.pb - s.pa)) fuel col (alignU (pat.firstCol s.row) s.ua (pat.align s.row))
+  dotLoop pat s ((s.pb - s.pa).sdiv (s.ub - s.ua)) fuel col
+    (alignU (pat.firstCol s.row) s.ua (pat.align s.row))
 
 inductive DItem (α : Type) where
   | rowOff (col row : Nat)
